@@ -34,3 +34,7 @@ pub mod error;
 pub mod ret;
 
 mod utils;
+
+/// Verification hook, only compiled with `--cfg pathrs_verif`.
+#[cfg(pathrs_verif)]
+mod verif;
